@@ -234,7 +234,7 @@ class Describer:
     def _field(self, d, name, adt):
         # closure env field -> upvar
         if d == ('env',):
-            return ('upvar', name)
+            return ('upvar', getattr(self.b, 'upvar_alias', {}).get(name, name))
         # projection of an aggregate literal -> the operand
         if d[0] == 'agg':
             kind, nm, args = d[1], d[2], d[3]
